@@ -580,7 +580,7 @@ PROP = Prop(
         Layer("mutation", stall_is_violation=True, strategy=mutation_cases, execute=execute_mutation, budget={"quick": 3000, "thorough": 120000}),
         Layer("faults", stall_is_violation=True, cases=fault_cases, execute=execute_fault),
         Layer("invalid-requests", strategy=invalid_request_cases, execute=execute_invalid, budget={"quick": 300, "thorough": 3000}),
-        Layer("atheris", cases=campaign_cases, execute=execute_campaign),
+        Layer("atheris", cases=campaign_cases, execute=execute_campaign, stall_s=3600),
         __import__("vf.props.real", fromlist=["layer_for"]).layer_for("C15", {"quick": 700, "thorough": 24000}),
     ],
     assumptions=["the replay peer sends its script whatever the client writes and releases the next round early rather than letting a read block, so a blocked "
